@@ -271,6 +271,19 @@ def run(ctx):
             "9 Element operations), serialisation order of mutated tokens, transfer of element-level end-tag edits, and the emission gate for removed content.")
 
 
+def clause_raw_emission_gated(r, mir):
+    """raw (uncaptured) input reaches the sink only while emission is enabled: the sink calls of
+    emit_chunk_before_lexeme and flush_remaining_input are control-dependent on self.emission_enabled"""
+    from ..mirlib import guarding_branches
+    for nm in ("DispatcherDelegate::emit_chunk_before_lexeme", "DispatcherDelegate::flush_remaining_input"):
+        f = mir.fn(nm)
+        calls = [bi for bi, t in f.calls(r"handle_chunk$")]
+        key = nm + "|gated"
+        r.inst(key, sample={"sink_calls": len(calls)})
+        if not calls or not all(any(f.deep(f.blocks[sb]["term"]["d"]).endswith("emission_enabled") for sb in guarding_branches(f, bi)) for bi in calls):
+            r.violate(key, f"{nm} hands raw input to the sink without testing emission_enabled: the uncaptured bytes in front of every token inside a removed / replaced element leak into the output whenever some handler (any observer) makes the parser produce tokens there", f.loc())
+
+
 def clause_vm_told_before_reenable(r, mir):
     """handle_tag: the selector VM must have seen this end tag (through the scanner's hint, or through
     adjust_capture_flags_for_tag_lexeme in lexing mode) before the dispatcher asks whether content removal stops
